@@ -110,6 +110,29 @@ type FakeClient struct {
 	subs   map[string]chan coretypes.ResultEvent
 	Calls  sync.Map // method name -> *atomic.Int64
 	Status_ atomic.Int64
+	faults sync.Map // "method/height" -> *atomic.Int32: number of transient errors still to be answered
+	FaultsServed atomic.Int64
+}
+
+// FailNext makes the next `times` calls of method ("Block" | "BlockResults") for height h fail with a transient
+// RPC error (what a briefly unavailable or lagging CometBFT RPC endpoint answers), after which it answers normally.
+func (f *FakeClient) FailNext(method string, h int64, times int) {
+	c := new(atomic.Int32)
+	c.Store(int32(times))
+	f.faults.Store(fmt.Sprintf("%s/%d", method, h), c)
+}
+
+func (f *FakeClient) fault(method string, height *int64) error {
+	if height == nil {
+		return nil
+	}
+	if v, ok := f.faults.Load(fmt.Sprintf("%s/%d", method, *height)); ok {
+		if v.(*atomic.Int32).Add(-1) >= 0 {
+			f.FaultsServed.Add(1)
+			return fmt.Errorf("injected transient RPC error: %s(%d): connection refused", method, *height)
+		}
+	}
+	return nil
 }
 
 func NewFakeClient(st *Store, app queryApp, head int64) *FakeClient {
@@ -186,6 +209,9 @@ func (f *FakeClient) Status(context.Context) (*coretypes.ResultStatus, error) {
 
 func (f *FakeClient) Block(_ context.Context, height *int64) (*coretypes.ResultBlock, error) {
 	f.called("Block")
+	if err := f.fault("Block", height); err != nil {
+		return nil, err
+	}
 	sb, err := f.resolve(height)
 	if err != nil {
 		return nil, err
@@ -204,6 +230,9 @@ func (f *FakeClient) BlockByHash(_ context.Context, hash []byte) (*coretypes.Res
 
 func (f *FakeClient) BlockResults(_ context.Context, height *int64) (*coretypes.ResultBlockResults, error) {
 	f.called("BlockResults")
+	if err := f.fault("BlockResults", height); err != nil {
+		return nil, err
+	}
 	sb, err := f.resolve(height)
 	if err != nil {
 		return nil, err
